@@ -743,6 +743,33 @@ func fieldValueAt(arg ssa.Value, fi int, fn *ssa.Function) ssa.Value {
 			}
 		}
 	}
+	// the struct is a local that fn builds and never reads itself (res := resource{value: rv}; res.m()): the one
+	// value it stores into that field
+	if al, ok := base.(*ssa.Alloc); ok && al.Referrers() != nil {
+		var stored ssa.Value
+		n := 0
+		for _, ref := range *al.Referrers() {
+			switch x := ref.(type) {
+			case *ssa.FieldAddr:
+				if x.Field != fi || x.Referrers() == nil {
+					continue
+				}
+				for _, r2 := range *x.Referrers() {
+					if st, isSt := r2.(*ssa.Store); isSt && st.Addr == ssa.Value(x) {
+						n++
+						stored = st.Val
+					}
+				}
+			case *ssa.Store:
+				if x.Addr == ssa.Value(al) {
+					n += 2 // the whole struct is overwritten somewhere
+				}
+			}
+		}
+		if n == 1 {
+			return stored
+		}
+	}
 	return nil
 }
 
@@ -1291,6 +1318,35 @@ func (lg *ledger) kindFact(cond ssa.Value, truth bool, subject ssa.Value, isType
 							return set, true
 						}
 						return ^uint64(0) &^ set, true
+					}
+				}
+			}
+		}
+	}
+	// _, ok := set[Kind(v)] for a constant table used as a set (map[reflect.Kind]struct{} or any value type): ok
+	// selects the kinds that are keys
+	if ex, isEx := cond.(*ssa.Extract); isEx && ex.Index == 1 && !isType {
+		if lk, isLk := ex.Tuple.(*ssa.Lookup); isLk && lk.CommaOk {
+			if ld, isLd := lk.X.(*ssa.UnOp); isLd && ld.Op == token.MUL {
+				if g, isG := ld.X.(*ssa.Global); isG && g.Pkg != nil {
+					if t := constTablesOf(g.Pkg)[g]; t != nil && !t.isArray && len(t.keys) > 0 {
+						if recv, _, ok := reflectValueCall(lk.Index, "Kind"); ok && lg.key(recv) == lg.key(subject) {
+							var set uint64
+							for _, k := range t.keys {
+								if k.Kind() != constant.Int {
+									return 0, false
+								}
+								n, exact := constant.Int64Val(k)
+								if !exact || n < 0 || n >= 64 {
+									return 0, false
+								}
+								set |= 1 << uint(n)
+							}
+							if truth {
+								return set, true
+							}
+							return ^uint64(0) &^ set, true
+						}
 					}
 				}
 			}
